@@ -11,6 +11,7 @@ import NV.Common.Proto
 import NV.C13.Model
 import NV.C13.Spec
 import NV.C13.SpecStall
+import NV.C13.SpecMode
 
 namespace NV.C13
 
@@ -158,7 +159,8 @@ def runJudge (body : List String) : List String :=
     let evs := impl.map (fun l => match parseEv l with
       | some e => e
       | none => Ev.crash l)          -- `crash ...`, `sanitizer ...` and anything unknown
-    match judgeEv p evs (cbs.any (fun e => e.2 == Outcome.dest)) ++ judgeStall (sentOf ops) (finishedOf ops) evs with
+    match judgeEv p evs (cbs.any (fun e => e.2 == Outcome.dest)) ++ judgeStall (sentOf ops) (finishedOf ops) evs ++
+          judgeMode (modeClauseEnabled p ops) evs with
     | [] => ["ok"]
     | vs => vs.map (fun v => s!"bad {v}")
 
